@@ -5,7 +5,7 @@
      scr t        : (tw + bw + lw + #tabs + widest row) * (th + max (bh, #rows)) + 1   — the screen measure incl. scrollback
      Inv09 t      : the C09 invariant (every state reachable without a text-area resize: Props/C09.v) *)
 From Coq Require Import ZArith NArith List Bool Lia.
-From IE Require Import Model.TermCore Model.AnsiTok Model.Cost Proofs.TermProofs Proofs.CostProofs Run.RunC03.
+From IE Require Import Model.TermCore Model.AnsiTok Model.Cost Model.Alloc Proofs.TermProofs Proofs.CostProofs Proofs.AllocProofs Proofs.TicksProofs Run.RunC03.
 From IE Require Model.Sixel Model.Font.
 Import ListNotations.
 Local Open Scope Z_scope.
@@ -77,6 +77,71 @@ Theorem glyph_iters_bound : forall h data, glyph_iters h data <= zlen data.
 Proof. exact glyph_iters_bound_l. Qed.
 Theorem window_ticks_bound : forall w, window_ticks w <= 133.
 Proof. exact window_ticks_bound_l. Qed.
+
+(* ==== Extension (notes/C03.md "Extension") ================================================================================================================ *)
+(* ---- (a) allocation: threaded counters of Model/Alloc.v (rows + cells allocated, a row removed and re-inserted counts) ------------------------------------ *)
+(* the counters are attached to the model functions, and for the operations that only write cells they ARE the growth of rows + cells *)
+Theorem alloc_version_same_state :
+  (forall t, fst (scroll_up_a t) = scroll_up t) /\ (forall t, fst (scroll_down_a t) = scroll_down t) /\
+  (forall t, fst (scroll_left_a t) = scroll_left t) /\ (forall t, fst (scroll_right_a t) = scroll_right t) /\
+  (forall t ys xs c, fst (fill_cells_a t ys xs c) = fill_cells t ys xs c) /\
+  (forall w h ls x y c, lsize (lset w h ls x y c) = lsize ls + lset_a w h ls x y) /\
+  (forall t, snd (scroll_up_a t) = lsize (lines (scroll_up t)) - lsize (lines t)) /\
+  (forall t, snd (scroll_down_a t) = lsize (lines (scroll_down t)) - lsize (lines t)) /\
+  (forall t ys xs c, snd (fill_cells_a t ys xs c) = lsize (lines (fill_cells t ys xs c)) - lsize (lines t)).
+Proof.
+  exact (conj scroll_up_a_fst (conj scroll_down_a_fst (conj scroll_left_a_fst (conj scroll_right_a_fst (conj fill_cells_a_fst
+        (conj lset_exact (conj scroll_up_a_exact (conj scroll_down_a_exact fill_cells_a_exact)))))))).
+Qed.
+(* nothing is allocated uncounted: a successful call grows rows + cells by at most its counter *)
+Theorem alloc_counts_growth :
+  (forall t c t', print_char t c = ROk t' -> lsize (lines t') <= lsize (lines t) + print_char_a t c) /\
+  (forall t t', caret_lf t = ROk t' -> lsize (lines t') <= lsize (lines t) + caret_lf_a t) /\
+  (forall t c t', insert_terminal_line t c = ROk t' -> lsize (lines t') <= lsize (lines t) + insert_terminal_line_a t c) /\
+  (forall t c t', remove_terminal_line t c = ROk t' -> lsize (lines t') <= lsize (lines t) + remove_terminal_line_a t c) /\
+  (forall t, lsize (lines (caret_ins t)) <= lsize (lines t) + caret_ins_a t) /\
+  (forall t n t', 0 <= cx t -> caret_erase t n = ROk t' -> lsize (lines t') <= lsize (lines t) + caret_erase_a t n).
+Proof.
+  exact (conj print_char_dom (conj caret_lf_dom (conj (fun t c t' H => proj1 (proj2 (insert_terminal_line_spec t c t' H)))
+        (conj (fun t c t' H => proj1 (proj2 (remove_terminal_line_spec t c t' H))) (conj caret_ins_dom caret_erase_dom))))).
+Qed.
+(* for EVERY final byte (REP included) the state-difference counter `alloc` of csi_final_c is at most the threaded counter *)
+Theorem alloc_dominates : forall t p is_start ch, 0 <= cx t -> alloc (snd (csi_final_c t p is_start ch)) <= csi_final_a t p is_start ch.
+Proof. exact alloc_dom_l. Qed.
+(* alloc_bound: rows + cells allocated by ANY CSI control function without intermediate, any parameters, any state of the C09 invariant;
+   REP (final byte b) is the known class *)
+Theorem alloc_bound : forall t p is_start ch n, Inv09 t -> 0 <= n -> nlen (nums p) <= n -> ch <> 98 ->
+  0 <= csi_final_a t p is_start ch <= 8 * (n + 1) * scr t.
+Proof. exact alloc_bound_l. Qed.
+Theorem alloc_bound_state : forall t p is_start ch n, Inv09 t -> 0 <= n -> nlen (nums p) <= n -> ch <> 98 ->
+  alloc (snd (csi_final_c t p is_start ch)) <= 8 * (n + 1) * scr t.
+Proof. exact alloc_bound_state_l. Qed.
+Theorem alloc_bound_sp : forall t p ch n, Inv09 t -> 0 <= n ->
+  alloc (snd (csi_sp_c t p ch)) <= csi_sp_a t p ch /\ 0 <= csi_sp_a t p ch <= 8 * (n + 1) * scr t.
+Proof. exact alloc_bound_sp_pair_l. Qed.
+Theorem alloc_bound_dollar : forall t p ch n, Inv09 t -> 0 <= n ->
+  alloc (snd (csi_dollar_c t p ch)) <= csi_dollar_a t p ch /\ 0 <= csi_dollar_a t p ch <= 8 * (n + 1) * scr t.
+Proof. exact alloc_bound_dollar_pair_l. Qed.
+
+(* ---- (b) weighted iteration total of every CSI control function; the clip of the rectangular-area operations ------------------------------------------- *)
+Theorem ticks_bound : forall t p is_start ch n, Inv09 t -> 0 <= n -> nlen (nums p) <= n -> ch <> 98 ->
+  0 <= ticks (snd (csi_final_c t p is_start ch)) <= 8 * (n + 1) * (scr t * scr t).
+Proof. exact ticks_bound_l. Qed.
+Theorem ticks_bound_sp : forall t p ch, Inv09 t -> 0 <= ticks (snd (csi_sp_c t p ch)) <= scr t * scr t.
+Proof. exact ticks_bound_sp_l. Qed.
+(* get_rect_area clips to max(rows, text height) x text width: DECFRA / DECERA / DECSERA visit at most scrW * scrH cells *)
+Theorem rect_clip : forall t a b c d, Inv09 t -> 0 <= rect_ticks t a b c d <= scrW t * scrH t.
+Proof. exact rect_ticks_bound_l. Qed.
+Theorem ticks_bound_dollar : forall t p ch, Inv09 t -> 0 <= ticks (snd (csi_dollar_c t p ch)) <= scr t.
+Proof. exact ticks_bound_dollar_l. Qed.
+(* DECRQCRA rejects a rectangle that is not inside the text area: at most tw * th cells are read *)
+Theorem ticks_bound_rqcra : forall t p, Inv09 t -> 0 <= ticks (snd (rqcra_c t p)) <= scr t.
+Proof. exact ticks_bound_rqcra_l. Qed.
+(* the $ group and DECRQCRA of the cost dispatcher are the arms of the character-level model *)
+Theorem dollar_arms_only : forall inv t p ch, st p = SEndCsi 36 -> fst (csi_dollar_c t p ch) = astep_gen inv (mkA t p) ch.
+Proof. exact dollar_arms_only_l. Qed.
+Theorem rqcra_arm_only : forall inv t p, st p = SEndCsi 42 -> fst (rqcra_c t p) = astep_gen inv (mkA t p) 121.
+Proof. exact rqcra_arm_only_l. Qed.
 
 (* ---- non-vacuity: the ledger inputs through the model ---------------------------------------------------------------------------------------- *)
 (* CSI 2147483647 S on 80x25: 12 parameter characters + 25 scrolls, not 2^31 *)
